@@ -637,13 +637,7 @@ func (m *Conv) Finish() {
 	}
 	sort.Strings(fk)
 	sort.Strings(mb)
-	kinds := []string{}
-	for _, s := range m.setup {
-		f := strings.Fields(s)
-		kinds = append(kinds, f[0]+":"+f[min(1, len(f)-1)])
-	}
 	shape := fmt.Sprintf("pairs=%d c2t=%d t2c=%d okPairs=%d multi=%v/%d fails=%v misb=%v", len(m.setup), min(m.okCoinToTok, 6), min(m.okTokToCoin, 6), len(m.okPairs), m.okMulti, multiDenomsUsed, fk, mb)
-	_ = kinds
 	m.R.Case(shape, nontrivial, func() interface{} { return m.Hist })
 	if m.okCoinToTok > 0 && m.okTokToCoin > 0 {
 		m.R.Label("case_with_both_directions")
